@@ -86,6 +86,27 @@ def cat_cases(rnd, per_fn):
     return out
 
 
+def fld_cases(rnd, per_fn):
+    out = []
+    for fn in ("strcpyfld_s", "strcpyfldin_s", "strcpyfldout_s"):
+        for _ in range(per_fn):
+            dmax = rnd.choice(DM)
+            slen = rnd.choice([1, 2, max(1, dmax - 34), max(1, dmax - 33), max(1, dmax - 2), max(1, dmax - 1), dmax, rnd.randint(1, dmax)])
+            ln = rnd.choice([0, 1, max(0, slen - 1), slen, slen + 2])        # characters in front of the first NUL of the source
+            gap = rnd.choice([0, 0, 1, 2, 5])
+            if rnd.random() < 0.5:
+                s = 1 + rnd.choice([0, 1, 3])
+                d = s + max(slen, ln + 1) + gap
+            else:
+                d = 1 + rnd.choice([0, 1, 3])
+                s = d + dmax + gap
+            n = max(d + dmax, s + max(slen, ln + 1)) + 2
+            a = blank(n)
+            put(a, s, letters(ln), True)
+            out.append(case(fn, 1, d, dmax, s, slen, a))
+    return out
+
+
 def mem_cases(rnd, per_fn):
     out = []
     for fn, w in MEMC:
@@ -129,6 +150,8 @@ def cases(family, seed, tier):
     k = 60 if tier == "quick" else 600
     if family == "strcopy":
         return copy_cases(rnd, k) + cat_cases(rnd, k)
+    if family == "strfld":
+        return fld_cases(rnd, k)
     if family == "memcopy":
         return mem_cases(rnd, k)
     if family == "fill":
